@@ -597,7 +597,7 @@ def ax_is_empty(call):
     return call.ret_leaf(call.interp.cmp_leaves(call.st, "Eq", n, ("int", 0), "usize"))
 
 
-@axiom("Ord::min", doc="min(a, b): an atom m with m <= a and m <= b (bounds handled by E3)")
+@axiom("Ord::min", "min", doc="min(a, b): an atom m with m <= a and m <= b (bounds handled by E3)")
 def ax_min(call):
     a, b = call.leaf(0), call.leaf(1)
     if a[0] == "int" and b[0] == "int":
@@ -770,3 +770,116 @@ def ax_from_parts(call):
     if () not in out:
         out[()] = TOP
     return call.ret(out)
+
+
+# ------------------------------------------------------------------------------ slices and bounds
+# Index / IndexMut with range arguments: the result is a fresh slice object with a known length;
+# the bounds obligation (the MIR-invisible panic inside core) is decided by order reasoning and
+# recorded on the interpreter (`undischarged`), never forked.
+
+def _slice_len(call, tree):
+    l = tree_leaf(tree)
+    if l[0] == "ref":
+        return call.interp.len_of(call.st, l)
+    if l[0] == "term":
+        return ("term", ("len", l[1]))
+    return TOP
+
+
+def _range_parts(tree):
+    """(kind, start leaf, end leaf) of a range aggregate"""
+    start = tree.get((("f", "start"),))
+    end = tree.get((("f", "end"),))
+    if start is not None and end is not None:
+        return "range", start, end
+    if end is not None:
+        return "to", None, end
+    if start is not None:
+        return "from", start, None
+    return "full", None, None
+
+
+def _index_axiom(mutable):
+    def ax(call):
+        I, st, fr = call.interp, call.st, call.fr
+        base = call.args[0]
+        idx = call.args[1]
+        n = _slice_len(call, base)
+        il = tree_leaf(idx)
+        ity = call.gargs[0] if call.gargs else ""
+        # element access by integer index
+        if il[0] in ("int", "term") and len(idx) == 1 and "Range" not in str(call.callee.get("path_args", "")) and not any(
+                p and p[0][0] == "f" for p in idx):
+            ok = n != TOP and I.decide_le(st, il, n, True)
+            I.obligation(st, fr, ok, "index %s < len %s" % (I.describe_leaf(il), I.describe_leaf(n)))
+            return call.ret_app("index") if not mutable else NotImplemented
+        kind, start, end = _range_parts(idx)
+        zero = ("int", 0)
+        if kind == "to":
+            ok = n != TOP and I.decide_le(st, end, n)
+            I.obligation(st, fr, ok, "slice end %s <= len %s" % (I.describe_leaf(end), I.describe_leaf(n)))
+            newlen = end
+        elif kind == "from":
+            ok = n != TOP and I.decide_le(st, start, n)
+            I.obligation(st, fr, ok, "slice start %s <= len %s" % (I.describe_leaf(start), I.describe_leaf(n)))
+            newlen = I.arith(st, "Sub", n, start, "usize") if n != TOP else TOP
+        elif kind == "range":
+            ok = n != TOP and I.decide_le(st, start, end) and I.decide_le(st, end, n)
+            I.obligation(st, fr, ok, "slice %s..%s within len %s" % (I.describe_leaf(start), I.describe_leaf(end), I.describe_leaf(n)))
+            newlen = I.arith(st, "Sub", end, start, "usize")
+        else:
+            newlen = n
+        # the sub-slice: content identity is a pure function of (base, range); length is known
+        keys = (call.arg_key(base), call.arg_key(idx))
+        ident = ("term", ("app", "slice") + keys) if TOP not in keys else TOP
+        key = (I.stack_key(st), fr.bb)
+        root = ("SL", fr.uid, fr.bb, st.visits.get(key, 0) if st.visits.get(key, 0) < I.loop_bound else "*")
+        st.write_tree(root, (), {(): ident, (("$len",),): newlen})
+        bl = tree_leaf(base)
+        if mutable and bl[0] == "ref":
+            # writes through the sub-slice modify the base object: remember the alias
+            st.write_leaf(root, (("$base",),), bl)
+        return call.ret_leaf(("ref", root, ()))
+    return ax
+
+
+for _n in ("<impl Index<I> for [T]>::index", "<impl Index<I> for [T; N]>::index"):
+    AXIOMS[_n] = _index_axiom(False)
+    AXIOM_DOC[_n] = "s[range]: sub-slice with the evident length; panics unless the range lies within len (obligation)"
+for _n in ("<impl IndexMut<I> for [T]>::index_mut", "<impl IndexMut<I> for [T; N]>::index_mut"):
+    AXIOMS[_n] = _index_axiom(True)
+    AXIOM_DOC[_n] = "&mut s[range]: as index"
+
+
+@axiom("<impl [T]>::copy_from_slice", doc="copies src into dst; panics unless the lengths are equal (obligation)")
+def ax_copy_from_slice(call):
+    I, st, fr = call.interp, call.st, call.fr
+    a, b = _slice_len(call, call.args[0]), _slice_len(call, call.args[1])
+    ok = a != TOP and b != TOP and (a == b or (I.decide_le(st, a, b) and I.decide_le(st, b, a)))
+    I.obligation(st, fr, ok, "copy_from_slice: len(dst) %s == len(src) %s" % (I.describe_leaf(a), I.describe_leaf(b)))
+    d, s = tree_leaf(call.args[0]), tree_leaf(call.args[1])
+    call.st.events.append(("copy_from_slice", st.read_tree(d[1], d[2]) if d[0] == "ref" else None,
+                           st.read_tree(s[1], s[2]) if s[0] == "ref" else None))
+    return call.ret_leaf(UNIT)
+
+
+@axiom("<impl [T]>::get", doc="Some(&s[i]) iff i < len; None otherwise (never panics)")
+def ax_slice_get(call):
+    return call.ret_app("<impl [T]>::get")
+
+
+@axiom("<impl [T]>::first", doc="Some(&s[0]) iff len > 0")
+def ax_slice_first(call):
+    n = _slice_len(call, call.args[0])
+    I = call.interp
+    out = []
+    pos = I.cmp_leaves(call.st, "Gt", n, ("int", 0), "usize") if n != TOP else TOP
+    if pos[0] == "int":
+        if pos[1]:
+            return call.ret(mk_variant("Some", leaf_tree(("term", ("app", "first", call.arg_key(call.args[0]))))))
+        return call.ret(mk_variant("None"))
+    if pos[0] == "term":
+        for st, v in call.fork_bool(pos[1]):
+            out.append((st, mk_variant("Some", leaf_tree(("term", ("app", "first", call.arg_key(call.args[0]))))) if v else mk_variant("None")))
+        return call.ret_many(out)
+    return call.ret_app("<impl [T]>::first")
